@@ -95,6 +95,7 @@ class SpecFunc:
         self.params = params      # list[(name, Ty)]
         self.result = result      # Ty
         self.fdecl = None
+        self.recursive = any(isinstance(x, ast.Call) and isinstance(x.func, ast.Name) and x.func.id == name for x in ast.walk(node))
 
     def decl(self, eng):
         if self.fdecl is None:
@@ -125,14 +126,33 @@ def register_specs(eng, modname):
 
 def apply_spec(eng, st, spec: SpecFunc, args):
     from .builtins import encode_elem, decode_elem
+    if not spec.recursive:
+        return [(st, inline_spec(eng, st, spec, args))]
     f = spec.decl(eng)
     es = [encode_elem(eng, st, a, t) for a, (_, t) in zip(args, spec.params)]
     r = f(*es)
-    v = decode_elem(eng, st, r, spec.result)
-    # type invariants of results
-    if spec.result.head == "bytes":
-        pass
-    return [(st, v)]
+    return [(st, decode_elem(eng, st, r, spec.result))]
+
+
+def inline_spec(eng, st, spec: SpecFunc, args):
+    """Non-recursive spec functions are transparent: their body is evaluated in place (paths merged by ite).
+    A path on which the body raises leaves the value unspecified there (fresh uninterpreted value)."""
+    from .builtins import encode_elem, decode_elem, elem_sort
+    scratch = st.clone()
+    base_len = len(scratch.pc)
+    eng.push_frame(scratch, None, spec.modname, spec.name)
+    for (pname, _), a in zip(spec.params, args):
+        scratch.env.f[pname] = a
+    res = eng.exec_block(spec.node.body, scratch)
+    srt = elem_sort(eng, spec.result)
+    acc = z3.Const(fresh_name("unspec_" + spec.name), srt)
+    for s2, o in reversed(res):
+        if isinstance(o, Raised) or o is None or o[0] != "return":
+            continue
+        cond = s2.pc[base_len:]
+        rhs = encode_elem(eng, s2, o[1], spec.result)
+        acc = z3.If(z3.And(*cond), rhs, acc) if cond else rhs
+    return decode_elem(eng, st, simp(acc), spec.result)
 
 
 def unfold_spec(eng, st, spec: SpecFunc, args):
@@ -152,7 +172,7 @@ def unfold_spec(eng, st, spec: SpecFunc, args):
     axioms = []
     for s2, o in res:
         if isinstance(o, Raised):
-            raise Unsupported(f"spec function {spec.name} raised during unfolding")
+            continue              # the spec leaves this case unspecified: no axiom
         if o is None or o[0] != "return":
             raise Unsupported(f"spec function {spec.name} fell through")
         cond = s2.pc[base_len:]
@@ -314,26 +334,23 @@ def value_in_model(eng, model, v):
 # evaluating contract clauses
 # ---------------------------------------------------------------------------
 def eval_clause(eng, st: State, node, extra=None):
-    """Evaluate a contract expression to a z3 Bool in the current frame (+ extra bindings), without forking."""
-    eng.push_frame(st, st.frames[-1], None, "<contract>")
+    """Evaluate a contract expression to a z3 Bool in the current frame (+ extra bindings).
+
+    Evaluated on a scratch copy: clauses never change the state.  If evaluation forks (indexing, conditional
+    expressions) the result is the disjunction of (fork condition & value); a fork that raises is false there.
+    """
+    sc = st.clone()
+    eng.push_frame(sc, sc.frames[-1], None, "<contract>")
     for k, v in (extra or {}).items():
-        st.env.f[k] = v
-    before = len(st.pc)
-    r = eng.ev(node, st)
-    if len(r) != 1:
-        # contract expressions may fork (e.g. indexing); combine as a disjunction of (path-cond & value)
-        disj = []
-        for s2, v in r:
-            if isinstance(v, Raised):
-                continue          # a clause that raises on a path is false there
-            disj.append(z3.And(*(s2.pc[before:] + [truth(v)])))
-        st.frames.pop()
-        return simp(z3.Or(*disj)) if disj else z3.BoolVal(False)
-    s2, v = r[0]
-    s2.frames.pop()
-    if isinstance(v, Raised):
-        return z3.BoolVal(False)
-    return truth(v)
+        sc.env.f[k] = v
+    before = len(sc.pc)
+    r = eng.ev(node, sc)
+    disj = []
+    for s2, v in r:
+        if isinstance(v, Raised):
+            continue
+        disj.append(z3.And(*(s2.pc[before:] + [truth(v)])))
+    return simp(z3.Or(*disj)) if disj else z3.BoolVal(False)
 
 
 def run_hints(eng, st: State, stmts, extra=None):
@@ -401,6 +418,8 @@ def apply_contract(eng, c: Contract, fv, args, kwargs, st: State):
                 s_exc.assume(g)
             exc = eng.fresh_exception(s_exc, cls) if hasattr(eng, "fresh_exception") else eng.make_exc(s_exc, cls, [])
             for e_txt in spec.get("ensures", []):
+                if isinstance(e_txt, tuple):
+                    e_txt = e_txt[1]
                 s_exc.assume(eval_clause(eng, s_exc, _parse_expr(e_txt), {"exc": exc}))
             if smt.feasible(s_exc.pc):
                 s_exc.frames.pop()
@@ -425,9 +444,9 @@ def apply_contract(eng, c: Contract, fv, args, kwargs, st: State):
 
 
 def eval_int(eng, st, node):
-    eng.push_frame(st, st.frames[-1], None, "<measure>")
-    r = eng.ev(node, st)
-    st.frames.pop()
+    sc = st.clone()
+    eng.push_frame(sc, sc.frames[-1], None, "<measure>")
+    r = eng.ev(node, sc)
     if len(r) != 1 or isinstance(r[0][1], Raised):
         raise Unsupported("measure expression must be simple")
     return as_int(r[0][1])
@@ -460,6 +479,10 @@ def assigned_names(body):
         for x in ast.walk(stmt):
             if isinstance(x, ast.Name) and isinstance(x.ctx, (ast.Store, ast.Del)):
                 names.add(x.id)
+            elif isinstance(x, ast.Call) and isinstance(x.func, ast.Attribute) and isinstance(x.func.value, ast.Name):
+                names.add(x.func.value.id)       # receiver of a method call may be mutated in place
+            elif isinstance(x, (ast.Subscript, ast.Attribute)) and isinstance(x.ctx, (ast.Store, ast.Del)) and isinstance(x.value, ast.Name):
+                names.add(x.value.id)
             elif isinstance(x, (ast.FunctionDef, ast.AsyncFunctionDef)):
                 names.add(x.name)
     return names
@@ -571,6 +594,10 @@ def exec_loop_invariant(eng, n, st: State, key, spec):
     for s, it in start_paths:
         seqv = it
         # 1. invariant holds on entry
+        entry_states = run_hints(eng, s, _parse_stmts(spec.get("entry_hints")))
+        if len(entry_states) != 1:
+            raise Unsupported("entry_hints must not fork")
+        s = entry_states[0]
         for cl in invs:
             g = eval_clause(eng, s, cl.node)
             oblige(eng, s, g, f"{key}/{cl.name}/entry", kind="auxiliary")
@@ -580,10 +607,14 @@ def exec_loop_invariant(eng, n, st: State, key, spec):
         mods = assigned_names(n.body) | ({idx} if is_for else set())
         if is_for:
             mods |= assigned_names([ast.Assign(targets=[n.target], value=ast.Constant(value=0))])
+        stored = {x.id for stmt in n.body for x in ast.walk(stmt) if isinstance(x, ast.Name) and isinstance(x.ctx, (ast.Store, ast.Del))}
         for name in sorted(mods):
             if name in s.env.f or name in spec.get("types", {}):
                 ty = spec.get("types", {}).get(name)
-                s.env.f[name] = havoc_like(eng, s, s.env.f.get(name), name, ty)
+                old = s.env.f.get(name)
+                if name not in stored and name != idx and not is_mutable_ref(s, old):
+                    continue          # only read / method-called on an immutable value
+                s.env.f[name] = havoc_like(eng, s, old, name, ty)
             # variables first bound inside the loop are simply unbound at the head
         for lv in spec.get("modifies", []):
             havoc_lvalue(eng, s, lv)
@@ -651,9 +682,21 @@ def exec_loop_invariant(eng, n, st: State, key, spec):
     return out
 
 
+def is_mutable_ref(st, v):
+    return isinstance(v, VRef) and st.heap[v.oid].kind in ("buf", "list", "dict", "cset", "inst", "msg")
+
+
 def havoc_like(eng, st, old: V, name, ty=None):
     if ty is not None:
-        return fresh(eng, st, ty, name)
+        nv = fresh(eng, st, ty, name)
+        if isinstance(old, VRef) and isinstance(nv, VRef) and st.heap[old.oid].kind == "list" and st.heap[nv.oid].kind == "slist":
+            # keep the identity of the list object: it becomes a symbolic-length list in place
+            st.heap[old.oid] = st.heap.pop(nv.oid)
+            from .heapmodel import joinb_f
+            if st.heap[old.oid].f["elem"].head == "bytes":
+                st.assume(joinb_f(z3.Empty(st.heap[old.oid].f["e"].sort())) == z3.Empty(BytesS))
+            return old
+        return nv
     if isinstance(old, VInt):
         return VInt(z3.Int(fresh_name(name)))
     if isinstance(old, VBool):
